@@ -79,8 +79,20 @@ def check_synth(res, case):
         res.skipped("degenerate synthetic state")
         return
 
+    # the within-cluster scatter is a sum of squares of (x - centroid): when the scatter is tiny compared with the values themselves
+    # (tight, well separated clusters) it is only known to eps*|x|/|x - centroid| relative, whoever computes it
+    lab_arr = np.asarray(labels)
+    resid = np.concatenate([Xc[lab_arr == k] - Xc[lab_arr == k].mean(axis=0)[None, :] for k in range(K) if np.any(lab_arr == k)])
+    rms = float(np.sqrt(np.mean(resid ** 2))) if resid.size else 0.0
+    rel = 1e-8 + 1e3 * 2.3e-16 * float(np.max(np.abs(Xc))) / max(rms, 1e-300)
+    if not rel < 1e-2:
+        res.skipped("scatter below the resolution of the data")
+        return
+
     def close(a, b):
-        return abs(a - b) <= 1e-8 * max(abs(a), abs(b)) + 1e-300
+        return abs(a - b) <= rel * max(abs(a), abs(b)) + 1e-300
+    if case.get("tight"):
+        res.count("states_with_tight_well_separated_clusters")
     res.count("synthetic_states_checked")
     if max(case["sizes"]) >= 255:
         res.count("states_with_a_cluster_of_255_or_more")
@@ -118,6 +130,12 @@ def run_synth(spec, res):
         case = dict(what="synth", rng=[int(v) for v in spec["seed"]] + [i], N=N, W=W, K=K, sizes=sizes, shuffle=bool(rng.integers(0, 2)),
                     sep=float(rng.uniform(0.5, 6)) * spread, spread=spread, offset=offset, biased=bool(rng.integers(0, 2)),
                     equal_column_means=bool(rng.random() < 0.3) and u >= 0.7)
+        if i % 9 == 5:
+            # tight, perfectly separated clusters (a quantised or piecewise-constant signal with a little jitter): the within-cluster
+            # scatter is 12-20 orders of magnitude below the between-cluster scatter, the index is huge but finite
+            case["tight"] = True
+            case["offset"] = np.zeros(N * W)
+            case["spread"] = case["sep"] * float(10 ** -rng.uniform(6, 10))
         check_synth(res, case)
         if i == 0:
             res.sample({k: v for k, v in case.items()})
@@ -139,6 +157,8 @@ def replay(case, res):
 
 def finalize(merged, tier):
     out = {"inconclusive": []}
+    if merged["counters"].get("states_with_tight_well_separated_clusters", 0) < (10 if tier == "quick" else 100):
+        out["inconclusive"].append("only %d synthetic states with tight, well separated clusters" % merged["counters"].get("states_with_tight_well_separated_clusters", 0))
     ec.min_counter(merged, out, "ch_checked", 40 if tier == "quick" else 400)
     ec.min_counter(merged, out, "synthetic_states_checked", 150 if tier == "quick" else 2500)
     ec.min_counter(merged, out, "states_with_a_cluster_of_255_or_more", 40 if tier == "quick" else 600)
